@@ -34,6 +34,7 @@ OUTSIDE = [
     "int leaves beyond 32 bits (the big-int encoding is decided by C05)",
 ]
 FUNCTIONS_ENCODED = ["dds._api.*", "dds.introspect.*", "dds._introspect_indirect.*", "dds._retrieve_objects.*", "dds.fun_args.*", "dds._annotations.*", "dds._eval_ctx.*", "dds.structures_utils.*", "dds.store.MemoryStore.*", "dds.store.NoOpStore.*", "dds._lru_store.*"]
+BUDGET_S = {"thorough": 1500}  # wall budget of the thorough tier: queries not started by then are reported as not run
 LAST_DETAIL = [""]
 BOUNDS = {
     "quick": {"templates": ["T1 (helper + tracked variable)", "T3 (const / default / keyword keeps)", "T4 (run-time argument keep)", "T5 (class, two methods)", "T6 (aliases, second module, non-accepted module)", "T7 (higher-order reference)", "T10 (module-alias variable, multi-line keep, lambda, nested def, dds_function)", "T1main (__main__ placement)"], "history": "2 steps (T1: one 3-step revert)", "leaves": "int: all 32-bit values; str: <= 2 ASCII chars; bool; float: finite reals; list / tuple / dict with one symbolic int; None-or-int; 3 path witnesses", "stores": ["memory", "noop", "cache-wrapped memory"], "entry styles": ["direct call", "dds.eval", "dds.keep"]},
